@@ -200,5 +200,26 @@ def check_cursor_loops(ctx: Ctx, rule: str, con: str, func: ast.AST, *, min_loop
                 ok = any(cfg.dominates(pstart, cfg.node_of(s)) for s in dom_inits)
                 ctx.ob(rule, con, ok, f"{label}: the cursor of the inner loop is not reset inside the enclosing loop body", node=loop, stmt=f"{label}: reset per outer iteration")
             ctx.ob(rule, con, bool(dom_inits), f"{label}: the cursor is not initialised before the loop", node=loop, stmt=f"{label}: initialised")
+    # window start written as ``position * size``: only right when every item has the same size
+    n_bad = 0
+    for loop, _ in loops:
+        it = loop.iter
+        if not (isinstance(it, ast.Call) and getattr(it.func, "id", None) == "enumerate" and isinstance(loop.target, ast.Tuple) and len(loop.target.elts) == 2 and isinstance(loop.target.elts[0], ast.Name)):
+            continue
+        pos = loop.target.elts[0].id
+        dep = _dependent_names(loop) - {pos}
+        for s in _direct_stmts(loop.body):
+            if isinstance(s, ast.Assign) and isinstance(s.targets[0], ast.Name) and isinstance(s.value, ast.BinOp) and isinstance(s.value.op, ast.Mult):
+                l, r = s.value.left, s.value.right
+                other = r if (isinstance(l, ast.Name) and l.id == pos) else (l if (isinstance(r, ast.Name) and r.id == pos) else None)
+                if other is None or not (names_in(other) & dep):
+                    continue
+                v = s.targets[0].id
+                used = any(isinstance(n, ast.Slice) and v in names_in(n) for n in ast.walk(loop))
+                if used:
+                    n_bad += 1
+                    ctx.ob(rule, con, False, f"the window start `{v} = {unparse(s.value)}` is the position of the item times the size of the CURRENT item: blocks are misplaced as soon as the items have different sizes (the start must be the sum of the sizes of the previous items)", node=s, stmt=f"window start of for {unparse(loop.target)} accumulates the previous sizes")
+    if n_bad:
+        return n_cursors
     ctx.need(n_cursors >= min_loops, f"{con}: expected at least {min_loops} cursor(s), recognised {n_cursors}")
     return n_cursors
